@@ -218,6 +218,8 @@ def run_suite(harness, suite, seed, tier, scratch, replay=None, extra_args=None)
     if replay:
         cmd += ["-replay", replay]
     cmd += (extra_args or [])
+    if suite.get("arg"):
+        cmd += ["-arg", suite["arg"]]
     cmd.append(suite["name"])
     env = dict(os.environ, GOMEMLIMIT=os.environ.get("GOMEMLIMIT", "6GiB"), GOTRACEBACK="single")
     try:
